@@ -109,7 +109,7 @@ func (in *Interp) sel(v Value, s Sel) Value {
 	}
 	switch a := v.(type) {
 	case Array:
-		if !s.Idx.IsConst() && len(a.Cells) >= 1 && len(a.Cells) <= 64 {
+		if !s.Idx.IsConst() && !a.Partial && len(a.Cells) >= 1 && len(a.Cells) <= 64 {
 			// symbolic index: ite-merge the cells when they are mergeable (no fork)
 			acc := a.Cells[len(a.Cells)-1]
 			ok := true
@@ -165,10 +165,13 @@ func (in *Interp) update(v Value, path []Sel, val Value) Value {
 	switch a := v.(type) {
 	case Array:
 		i := in.concretize(s.Idx, "array index")
+		if i >= uint64(len(a.Cells)) {
+			in.unsupported("internal: array index %d out of %d", i, len(a.Cells))
+		}
 		nc := make([]Value, len(a.Cells))
 		copy(nc, a.Cells)
 		nc[i] = in.update(nc[i], path[1:], val)
-		return Array{Cells: nc}
+		return Array{Cells: nc, Partial: a.Partial}
 	case SArray:
 		if len(path) != 1 {
 			in.unsupported("internal: path below scalar array")
